@@ -22,7 +22,7 @@ from mininec.mininec import Excitation, Angle, Impedance_Load
 PID = 'C07'
 INVS = ['WeightsAgree', 'GroundWeight', 'OneRealHalf', 'FreeSpaceUnit']
 VOLTS = [1 + 0j, 1j, -1 + 0j, 2 * np.exp(1j * np.pi / 6), 0.3 - 0.7j, 1e-3 + 0j, 1e3 + 0j]
-ALPHAS = [2.0 + 0j, 1j, 0.6 + 0.8j, -3.5 + 0j, 1e-3 * (1 - 1j)]
+ALPHAS = [2.0 + 0j, 1j, 0.6 + 0.8j, -3.5 + 0j, 1e-3 * (1 - 1j), 1e-17 * (0.6 + 0.8j), 3e11j]   # 'all complex voltages': also far from 1 V
 RUNS = {'quick': [('MC_Circuit_q2.cfg', None, True), ('MC_Circuit_free2.cfg', None, False),
                   ('MC_Circuit_sim5.cfg', 'num=250', True)],
         'thorough': [('MC_Circuit_q2.cfg', None, True), ('MC_Circuit_free2.cfg', None, False),
